@@ -44,7 +44,7 @@ def run(ctx):
             vlib.decide_absolute(ctx, s, explain="explain_pi", theorem="(Model/Intrinsics.v is the trusted meaning of the instruction)")
         for label, args in runs:
             ctx.log("x86 back ends, %s: harness c12 %s" % (profile, " ".join(str(a) for a in args)))
-            s = vlib.correspondence(ctx, binary, "c12", args, label)
+            s = vlib.correspondence(ctx, binary, "c12", args, label, shards=16 if ctx.quick else 96)   # thorough: 16 shards of ~7 MB each overflow coqc's stack
             vlib.decide_absolute(ctx, s, explain="explain_px", theorem="C12_x86 theorems of Props/C12.v")
     try:
         from checks import ppvgen_part
